@@ -6,7 +6,7 @@ E5 = ("E5 value-graph matching of anchored functions against reference implement
       "Static translation-validation style check: for every function anchored in this property, results, ordered guarded effects, loop conditions/exits and loop-carried (init, step) values, package-level initialisers and function literals are rebuilt from SSA as terms and must equal those of a reference implementation written from the property statement, over the reals and under every truth assignment of the atomic comparisons. Decides that the anchored formulas, guards, argument roles, protocols and validators are the statement's; does not decide emergent behaviour of value-dependent loops beyond the per-iteration transfer functions.")
 CHECKS = {
  "C02": ("E3 nondeterminism-source exclusion + shared-state write analysis over SSA (plus E5 on the generator constructors and handlers)",
-         "Static exclusion argument: on the SSA form of every function reachable from the handlers and MakeDecision, no nondeterminism source exists (clock, global PRNG, os/runtime, goroutines/channels, unclassified externals), every generator is seeded from a request *Seed field, every map range is order-insensitive (classified P/E/S), comparators are pure, and nothing writes memory that outlives the request. Decides the structural necessary-and-(under the stated assumptions)-sufficient conditions of repeatability; not the byte encoding.",
+         "Static exclusion argument: on the SSA form of every function reachable from the handlers and MakeDecision, no nondeterminism source exists (clock, global PRNG, os/runtime, goroutines/channels, unclassified externals), every generator is seeded from a request *Seed field, every map range is order-insensitive (classified P/E/S), comparators are pure, no struct is decoded by a decoder that resolves keys in map order (ND-5: the one mapstructure.Decode site is a recorded known finding), and nothing writes memory that outlives the request. Decides the structural necessary-and-(under the stated assumptions)-sufficient conditions of repeatability; not the byte encoding.",
          "2"),
  "C10": ("E3 may-point-to-shared write analysis (SHR-1..4) over SSA + call graph (plus E5 on factories and handlers)",
          "Race freedom by construction: every write reachable from a handler is shown to target request-local memory (interprocedural may-point-to-shared analysis with singleton types taken from the initialisers), factories return fresh objects, decode targets are request-local, globals are init-only, no goroutines/channels/shared PRNG. Holds for every interleaving because it shows the absence of shared writes rather than sampling schedules.",
@@ -14,7 +14,7 @@ CHECKS = {
 }
 SHORT = {"C01": "OWN-2 (forked append)", "C05": "REC (recursion table)", "C07": "TCH (type channels), LIT (literal completeness), LEN (make/fill agreement)",
  "C09": "OWN-1 (no in-place write to borrowed state), OWN-2, SHR-1/SHR-4 (no write to shared state)", "C11": "LIT", "C15": "LEN", "C18": "TCH",
- "C20": "PANIC-type, REC"}
+ "C20": "PANIC-type, REC, VAL-1 (validation not behind a random draw)"}
 EXTRA = {
  "C01": " Plus OWN-2 (no forked append: a loop never appends repeatedly to one base defined outside it), decided on SSA without a reference.",
  "C05": " Plus REC (every recursion cycle on the request path is tabled with its termination argument).",
@@ -23,10 +23,13 @@ EXTRA = {
  "C11": " Plus LIT (literal completeness of the heuristic's parameter struct in the listener).",
  "C15": " Plus LEN (make/fill agreement, the SortByWeights class of defects).",
  "C18": " Plus TCH (type channels between OnCriterionAdded and Merge of every listener).",
- "C20": " Plus PANIC-type (every request-path panic carries an error or string), REC (recursion cycles tabled), and SHR-1 via C10.",
+ "C20": " Plus PANIC-type (every request-path panic carries an error or string), REC (recursion cycles tabled), VAL-1 (the call that validates a bias's props is not control dependent on a random draw: violated in processBiases, recorded as a known finding).",
 }
 for _p in ["C01","C03","C04","C05","C07","C08","C09","C11","C12","C13","C14","C15","C16","C17","C18","C19","C20"]:
-    CHECKS[_p] = (E5[0] + ("; plus reference-free SSA rules " + SHORT[_p] if _p in SHORT else ""), E5[1] + EXTRA.get(_p, ""), "2")
+    CHECKS[_p] = (E5[0] + ("; plus reference-free SSA rules " + SHORT[_p] if _p in SHORT else "") + ("" if _p == "C09" else "; plus SHR-1/SHR-4 (no request-path write to memory that outlives the request)"),
+                  E5[1] + " The anchor set is closed under static callees, and the struct types those functions use are compared field by field (names, types, tags, codec methods) with reference declarations (E5-types)." + EXTRA.get(_p, "") +
+                  ("" if _p == "C09" else " As the property is stated for every request whatever was processed before, SHR-1/SHR-4 (nothing reachable from a handler writes memory that outlives the request) are part of the check.") +
+                  " Thorough tier: the same obligations, plus a self-test that applies this property's seeded breaking changes and up to four type-preserving mutants per anchored function in memory and records how many the rules report.", "2")
 
 NA = {"C06": "all four clauses are relations between two alternatives or two runs (dominance, equality, permutation and scaling invariance of a nested recursion); no structural necessary condition short of the algorithm's functional correctness implies them. The structural facts they rest on (symmetric qualification, retention of ex-aequo candidates, non-strict intersection guard, ratio form of the concordance) are checked under C05 and reported there, not claimed as a decision of C06."}
 
